@@ -3,6 +3,7 @@ package simnet
 import (
 	"bytes"
 	"fmt"
+	"strings"
 
 	abci "github.com/cometbft/cometbft/abci/types"
 	"github.com/cosmos/cosmos-sdk/types/query"
@@ -157,6 +158,13 @@ func (m *monServed) AfterBlock(w *World) {
 	// (1) the previous height, asked now
 	if m.prev != nil && m.prevH == h-1 {
 		for _, q := range qs {
+			// Asking must not change what is being observed. A parameter read at another height
+			// would refresh whatever a keeper may hold per height - and with it wipe out, every
+			// block, exactly the kind of stale value other oracles are there to catch (seeded change
+			// C06-w5-03). The historical pass therefore leaves out the queries that read parameters.
+			if strings.HasSuffix(q.name, ".Params") || strings.HasSuffix(q.name, "Storage") {
+				continue
+			}
 			if was, ok := m.prev[key(q)]; ok {
 				if now := served(q, h-1); !bytes.Equal(was, now) {
 					w.Violate(w.PropOverride, w.PropOverride+"/served-answer-changes-afterwards/"+q.name, "%s asked for height %d answered %s while that height was the latest and answers %s now", q.name, h-1, trunc(fmt.Sprintf("%q", was), 120), trunc(fmt.Sprintf("%q", now), 120))
